@@ -11,7 +11,7 @@ use std::str::FromStr;
 pub enum Val {
     None,
     Bool(bool),
-    /// canonical (normalised) decimal text
+    /// exact decimal text as the engine prints it (scale preserved)
     Num(String),
     Str(String),
     List(Vec<Val>),
@@ -39,7 +39,12 @@ impl Val {
         match v {
             Value::None => Val::None,
             Value::Bool(b) => Val::Bool(*b),
-            Value::Number(d) => Val::Num(d.normalize().to_string()),
+            // exact text, scale included: `3.0` and `3` behave differently (integer(), shifts), so the model carries the scale too
+            Value::Number(d) => {
+                // (the sign of a zero is not observable through the language; `-0` and `0` are one value)
+                let s = d.to_string();
+                Val::Num(if d.is_zero() { s.trim_start_matches('-').to_string() } else { s })
+            }
             Value::String(s) => Val::Str(s.clone()),
             Value::List(xs) => Val::List(xs.iter().map(Val::from_engine).collect()),
             Value::Map(xs) => Val::Map(xs.iter().map(|(k, v)| (Val::from_engine(k), Val::from_engine(v))).collect()),
@@ -121,7 +126,12 @@ impl Expr {
             Expr::Lit(Val::Str(s)) => format!("'{}'", s),
             Expr::Lit(v) => panic!("not a literal: {:?}", v),
             Expr::Ref(n) => n.clone(),
-            Expr::Call(n, args) => format!("{}({})", n, args.iter().map(|a| a.operand()).collect::<Vec<_>>().join(", ")),
+            Expr::Call(n, args) => {
+                // some call sites are written with whitespace between the name and the parenthesis
+                // (decided by the name and arity, so that rendering stays a pure function of the tree)
+                let gap = if (crate::prng::h64(n.as_bytes()) as usize + args.len()) % 5 == 0 { " " } else { "" };
+                format!("{}{}({})", n, gap, args.iter().map(|a| a.operand()).collect::<Vec<_>>().join(", "))
+            }
             Expr::Un(op, e) => format!("{} {}", op, e.operand()),
             Expr::Bin(op, l, r) => format!("{} {} {}", l.operand(), op, r.operand()),
             Expr::Post(e, op) => format!("{} {}", e.operand(), op),
